@@ -198,7 +198,9 @@ int main(int argc, char **argv)
 		       SQFS_ON_DISK_BLOCK_SIZE(e.size), (SQFS_IS_BLOCK_COMPRESSED(e.size) && e.size) ? "true" : "false");
 	}
 	memfile_t *m = (memfile_t *)out;
-	printf("],\"dsize\":%zu,\"dcrc\":%lu}\n", m->n, crc32(0, m->d, m->n));
+	printf("],\"dsize\":%zu,\"dcrc\":%lu,\"disk\":\"", m->n, crc32(0, m->d, m->n));
+	for (size_t i = 0; i < m->n && m->n <= 65536; ++i) printf("%02x", m->d[i]);
+	printf("\"}\n");
 	if (argc > 2) { FILE *o = fopen(argv[2], "wb"); if (o) { fwrite(m->d, 1, m->n, o); fclose(o); } }
 	for (int i = 0; i < nf; ++i) free(inodes[i]);
 	sqfs_drop(proc); sqfs_drop(wr); sqfs_drop(tbl); sqfs_drop(cmp); sqfs_drop(unc); sqfs_drop(out);
